@@ -15,10 +15,15 @@ SEEDS = [
 def specs(tier):
     static = A.dihypergraph_static() + A.dihypergraph_deviant()
     gens = [A.gen_dimember_removals]
-    depth = 3 if tier == "quick" else 4
-    devb = 1 if tier == "quick" else 2
-    return [explore.Spec("dihypergraph-histories", SEEDS, static, gens, invariants=[oracles.directed_incidence],
-                         depth=depth, dev_bound=devb, namespace=histcheck.base_namespace)]
+    if tier == "quick":
+        return [explore.Spec("dihypergraph-histories", SEEDS, static, gens, invariants=[oracles.directed_incidence],
+                             depth=3, dev_bound=1, namespace=histcheck.base_namespace)]
+    return [
+        explore.Spec("dihypergraph-histories", SEEDS, static, gens, invariants=[oracles.directed_incidence],
+                     depth=3, dev_bound=2, namespace=histcheck.base_namespace),
+        explore.Spec("dihypergraph-histories-deep", SEEDS[:2], A.dihypergraph_trim(), gens,
+                     invariants=[oracles.directed_incidence], depth=5, dev_bound=2, namespace=histcheck.base_namespace),
+    ]
 
 
 def run(tier, ev):
